@@ -31,7 +31,7 @@ CLAIMED = {
          "Decides for every generated reader function (TL1, TL2, JSON, result readers, Builtin collection readers) that every input-sized allocation is dominated by a bound against the remaining input (CheckLengthSanity with a positive minimum size in TL1 — for corpora generated with the option — or len(r) < n → error in TL2), every non-constant slicing is dominated by the matching len/cap guard with facts killed on reassignment, no panic is called, and every loop is a range loop, a counted loop, an incrementing index loop or a lexer loop whose iterations consume a token or leave.  Every non-constant index into a fixed-size array is bounded by the array length (loop bound through a constant / the array length / min(…, const), ranging over the array, or a dominating i == N → return). One genuine defect class is recorded as a known finding (JSON tuple readers allocate nat_n elements up front). basictl's own readers are C33.",
          "corpus-bounded; easyjson trusted; heap use as a number is not decided", "DESIGN.md §3 C08"),
  "C09": ("other", "must-define / no-stale-read dataflow over generated readers and Reset",
-         "Decides on every path to a success return of every generated TL1/TL2 reader and Reset that each receiver field (hidden TL2 masks, union index included) is assigned, reset or handed to a sibling reader/Reset; that no condition reads a field before this call defined it; that collection readers re-slice/reallocate/clear the destination first; that temporaries stored into collections are fresh per iteration. JSON readers are covered by C06's omitted-field rule; error values are not compared.",
+         "Decides on every path to a success return of every generated TL1/TL2 reader and Reset that each receiver field (hidden TL2 masks, union index included) is assigned, reset or handed to a sibling reader/Reset; that no condition reads a field before this call defined it; that collection readers re-slice/reallocate/clear the destination first and before any return without error; that the absent-key blocks of JSON struct readers reset their field on every path; that temporaries stored into collections are fresh per iteration. JSON readers are covered by C06's omitted-field rule; error values are not compared.",
          "inductive summary: a sibling reader/Reset defines its operand; corpus-bounded", "DESIGN.md §3 C09"),
  "C10": ("other", "clone isomorphism of string/[]byte twins (generated wire programs and basictl clone pairs) modulo a declared substitution",
          "Decides that each []byte twin has the same TL1/TL2 wire programs, slot tables and nested-call order as its string version modulo the declared substitution, that slice-backed dictionary readers keep what they decode, that the element temporaries of both variants are declared per iteration (decoded values own their storage), and that the basictl clone pairs are AST-isomorphic modulo (utf8.ValidString↔Valid, DecodeRuneInString↔DecodeRune, string(x)↔x).",
